@@ -76,6 +76,15 @@ theorem beamsplitter_uncertainty (n k l : Nat) (hk : k < n) (hl : l < n) (hkl : 
   linMap_uncertainty n _ (bsRows_supported n k l hk hl c s ct sn) (bsRows_symplectic k l hkl c s ct sn hcs hts)
     V hxx hpp h
 
+/-- **loss and thermal loss preserve the uncertainty relation**: with `T = q² ≤ 1` (witness `t² = 1 − q²`)
+and thermal noise `e = 2(1 − T)n̄ ≥ 0`, the specification `addNoise (linMap (lossRows k q) V) k (1 − q² + e)`
+(which `loss_refines`/`thermalLoss_refines` show the simulator computes) satisfies `V + iΩ ⪰ 0` -/
+theorem loss_uncertainty (n k : Nat) (q t e : ℝ) (ht : t * t = 1 - q * q) (he : 0 ≤ e) (V : XP ℝ)
+    (hxx : ∀ i j, V.xx i j = V.xx j i) (hpp : ∀ i j, V.pp i j = V.pp j i)
+    (hk : k < n) (h : Uncertainty (covMatrix n V) (omegaMatrix n)) :
+    Uncertainty (covMatrix n (addNoise (linMap (lossRows k q) V) k (1 - q * q + e))) (omegaMatrix n) :=
+  loss_spec_uncertainty n k q t e ht he V hxx hpp hk h
+
 /-- **passive gates conserve photon number**: beamsplitter (second moments and amplitudes) -/
 theorem beamsplitter_conserves {K : Type} [CommRing K] (st : GS K) (hI : NMInv st) (c s ct sn : K) (k l : Nat)
     (hkl : k ≠ l) (hcs : c * c + s * s = 1) (hts : ct * ct + sn * sn = 1) :
